@@ -1,4 +1,4 @@
-import SnaxVerif.Lemmas.AccfgPull
+import SnaxVerif.Lemmas.AccfgDce
 import SnaxVerif.Props.C07
 /-!
 # C01 — configuration deduplication never changes what a launch observes
@@ -62,6 +62,13 @@ theorem pull_preserves (path : List Nat) (a : AccId) (fs : List (Field × Var)) 
     (execB cfg false b' st).tr = (execB cfg false b st).tr :=
   insert_setup_trace cfg path a fs b b' bg h' hg hwf hn hng hwfg hok st
 
+/-- The greedy driver's erase of a trivially dead statement (side-effect free, results unused — `dceSide`
+is that "unused" condition, evaluated on every real dce step): registers and trace are unchanged. -/
+theorem dce_preserves (path : List Nat) (b b' : Block) (h : applyRule .dce path b = some b')
+    (hside : dceSide path b b' = true) (cfg : Cfg) (st : St) :
+    (execB cfg false b' st).tr = (execB cfg false b st).tr :=
+  (dce_trace cfg path b b' h hside st).2
+
 /-- One validated rewrite step of the pass. -/
 inductive StepOK (cfg : Cfg) : Block → Block → Prop where
   | simplify (path) {b b'} : applyRule .simplify path b = some b' → wfB b = true → nodupB b = true → StepOK cfg b b'
@@ -72,6 +79,7 @@ inductive StepOK (cfg : Cfg) : Block → Block → Prop where
       insertAt path (.setup a fs) b = some b' → insertAt path (.ghost a fs) b = some bg →
       wfB b = true → nodupB b = true → noGhostB b' = true → wfB bg = true → okBb cfg.fields bg noFacts = true →
       StepOK cfg b b'
+  | dce (path) {b b'} : applyRule .dce path b = some b' → dceSide path b b' = true → StepOK cfg b b'
 
 /-- Any sequence of validated steps, in any order (whatever the greedy driver chooses). -/
 inductive Chain (cfg : Cfg) : Block → Block → Prop where
@@ -86,12 +94,14 @@ theorem step_preserves {cfg : Cfg} {b b' : Block} (h : StepOK cfg b b') (st : St
   | elide path h hwf hn => rw [elide_preserves path _ _ h hwf hn]
   | hoist path h hwf hn => rw [hoist_preserves path _ _ h hwf hn]
   | pull j path a fs bg _ h' hg hwf hn hng hwfg hok => exact pull_preserves path a fs _ _ bg cfg h' hg hwf hn hng hwfg hok st
+  | dce path h hside => exact dce_preserves path _ _ h hside cfg st
 
 /-- **C01.** Deduplication never changes the sequence of launches/awaits/calls nor the register contents any
 launch observes: for every chain of rewrite steps, every execution (initial environment and registers, branch
-outcomes, trip counts, clobbering calls). The trivially-dead erase steps of the xDSL driver (`Rule.dce`) are
-replayed by the harness but not part of this theorem yet: see `dedup_preserves_partial` in the notes. -/
-theorem dedup_preserves_partial {cfg : Cfg} {b b' : Block} (h : Chain cfg b b') (st : St) :
+outcomes, trip counts, clobbering calls), including the trivially-dead erase steps of the xDSL driver.
+The side conditions inside `StepOK` (SSA well-formedness, unique field names per setup, `okBb` for pull,
+`dceSide` for dce) are decidable and evaluated by the check on every step of every real run. -/
+theorem dedup_preserves {cfg : Cfg} {b b' : Block} (h : Chain cfg b b') (st : St) :
     (execB cfg false b' st).tr = (execB cfg false b st).tr := by
   induction h with
   | refl => rfl
